@@ -24,6 +24,7 @@ func init() {
 			"R3 old key retired: rotate.Key returns nil only after the old key was destroyed or the previous primary version was found empty (ESP, with the rules of C10). " +
 			"R4 profile: NotAfter is NotBefore plus exactly RootValidDays for a CA / self-issued template and SignValidDays otherwise, per branch on IsCA / Issuer == nil; where a producer sets KeyUsage, the CA arm has IsCA=true and CertSign|CRLSign and the other arm DigitalSignature. " +
 			"R5 default serial: the rotate command stores the default serial from sign/ops.NextSigningKeySerial, which returns parsed-subject-serial + the constant 1 of the primary signing certificate. " +
+			"R8 (ESP) no production Wipeout (rotate.Wipeout, the storage-backed CA, wrapping key managers) returns nil on a path on which one of its wipeout / destroy / delete steps failed. " +
 			"R7 a key manager that embeds another implementation of keys.ManagerInterface and overrides its Create* methods also overrides DestroyKeyVersion and Wipeout (none of them is taken from the embedded manager by promotion). " +
 			"R6 profile ownership: every store into a field of an x509.Certificate in production code writes an object allocated by the storing function (or by all callers of an unexported helper); a template returned by a producer is never adjusted afterwards. " +
 			"Not covered: serial arithmetic over histories, key-name uniqueness across wipeouts, wipeout completeness, which key can sign.",
@@ -37,6 +38,7 @@ func isCertField(fa *ssa.FieldAddr, name string) bool {
 }
 
 func runC12(c *Ctx) {
+	defer c12Wipeout(c)
 	stypPkg := repoPath("sign/types")
 	sl := flow.NewSlicer(c.P)
 	sl.ThroughOutParams = true
@@ -680,4 +682,86 @@ func freshResultOfSamePkgHelper(c *Ctx, call *ssa.Call, idx int, fn *ssa.Functio
 		}
 	}
 	return true
+}
+
+// c12Wipeout — R8: a wipeout reports what it did not wipe. In every production function named Wipeout that returns
+// an error and calls further wipeout / destroy / delete steps (rotate.Wipeout over the CA and the key manager, the
+// storage-backed CA over its bucket, a wrapping key manager over the one it embeds), a return with a nil error is
+// never reached on a path on which one of those steps failed: "wipeout leaves no key or certificate usable" is
+// only ever claimed when every step succeeded.
+func c12Wipeout(c *Ctx) {
+	isStep := func(call ssa.CallInstruction) bool {
+		name := ""
+		if call.Common().IsInvoke() {
+			name = call.Common().Method.Name()
+		} else if cal := call.Common().StaticCallee(); cal != nil {
+			name = cal.Name()
+		}
+		if errIndex(call.Common().Signature()) < 0 {
+			return false
+		}
+		return name == "Wipeout" || strings.HasPrefix(name, "Destroy") || strings.HasPrefix(name, "Delete")
+	}
+	n := 0
+	for _, f := range c.P.RepoFunctions() {
+		if c.isTestFunc(f) || f.Name() != "Wipeout" || f.Blocks == nil || errIndex(f.Signature) < 0 || f.Parent() != nil {
+			continue
+		}
+		rel := load.RelPkg(f)
+		if strings.HasPrefix(rel, "testing/test") || rel == "testing/storage" || rel == "keys/gcpkms" {
+			continue // test doubles; the Cloud KMS manager collects refusals per version (C20.R5)
+		}
+		if len(callsIn(f, isStep)) == 0 {
+			continue
+		}
+		n++
+		const bFailed uint = 0
+		steps := 0
+		r := &esp.Rule{Name: "C12.R8"}
+		region := map[*ssa.Function]bool{}
+		for _, g := range unexportedRegion(f) {
+			if g != f {
+				region[g] = true
+			}
+		}
+		// a step implemented in the repository is summarised, so that one that cannot fail (the in-memory manager's
+		// `return nil`) is known not to
+		r.Relevant = func(g *ssa.Function) bool {
+			return region[g] || (load.FuncInRepo(g) && g != f && (g.Name() == "Wipeout" || strings.HasPrefix(g.Name(), "Destroy")))
+		}
+		r.Match = func(in ssa.Instruction) []esp.Ev {
+			if in.Parent() != f && !region[in.Parent()] {
+				return nil
+			}
+			call, ok := in.(ssa.CallInstruction)
+			if !ok || !isStep(call) {
+				return nil
+			}
+			if cal := call.Common().StaticCallee(); cal != nil && region[cal] {
+				return nil
+			}
+			steps++
+			return []esp.Ev{{ID: 0, Name: "step " + callName(call), ErrIdx: errIndex(call.Common().Signature()), BoolIdx: -1}}
+		}
+		r.Step = func(x *esp.Ctx, s esp.State, ev esp.Ev, ph esp.Phase) (esp.State, string) {
+			if ph == esp.Fail {
+				return s.Set(bFailed), ""
+			}
+			return s, ""
+		}
+		ei := errIndex(f.Signature)
+		r.AtReturn = func(x *esp.Ctx, s esp.State, rets []esp.Abs) string {
+			if rets[ei] != esp.NonZero && s.Has(bFailed) {
+				return "R8: the wipeout may return nil although one of its wipeout / destroy steps failed: what that step was to remove stays usable while the operation reports success"
+			}
+			return ""
+		}
+		e := c.engine(r)
+		e.Run(f, esp.State{})
+		name := load.FuncName(f)
+		if c.reportEngine(e, "R8", func(v *esp.Violation) string { return name + ":failed step reported" }) == 0 {
+			c.S.OK("R8", name+":failed step reported", c.pos(f.Pos()), fmt.Sprintf("no nil return after a failed step (%d step calls, %d configurations)", steps, e.Configs), true)
+		}
+	}
+	c.S.Floor("R8", "production Wipeout functions with wipeout / destroy steps", 2, n)
 }
